@@ -100,12 +100,25 @@ def incarnation_scenarios(rng, ctx, per_config):
                                   {"op": "event", "n": 0}]
                         rng.shuffle(a_tail)
                         b_ops = [put(B), inf(B), flt(B), bnd(B, rng.choice(["node1", "node2"])), inf(B), phase(B, 1), inf(B)]
+                        if rng.random() < 0.3:
+                            # the informer lags behind the new incarnation: it is filtered and bound (or refused) and a resync item
+                            # is handled before the lister has seen it
+                            b_ops = [put(B), flt(B), bnd(B, "node1"), {"op": "resync", "ip": "@a0"}, {"op": "resync_item", "ip": "@a0"},
+                                     inf(B), flt(B), bnd(B, "node1"), inf(B), phase(B, 1), inf(B)]
                         if end == "finish":
                             b_ops = [dele(A)] + b_ops
                         # a resync pass took its snapshot right after the old pod ended; its items are handled later
                         a_ops = a_ops + [{"op": "resync_fetch"}]
                         for m in interleavings(rng, a_tail, b_ops, per_config):
+                            # contenders: other pods ask for the very addresses the new incarnation holds
+                            rc = {"none": [], "same": [["10.100.0.3~10.100.0.4"]], "changed": [["10.100.0.5~10.100.0.6"]],
+                                  "multi": [["10.100.0.3"]]}[rmode]
+                            cont = []
+                            for ci in range(2):
+                                C = mkpod("other-%d" % ci, "uC%d" % ci, "bare", "", 0, rc)
+                                cont += [put(C), inf(C), flt(C), bnd(C, "node1"), inf(C)]
                             tail = [{"op": "event", "n": 0}, {"op": "resync", "ip": "@a0"}, {"op": "resync", "ip": "@a1"},
+                                    {"op": "resync_item", "ip": "@a0"}, {"op": "resync_item", "ip": "@a1"}] + cont + [
                                     {"op": "resync", "ip": "@a2"}, {"op": "reload", "conf": conf_text([POOL_A, POOL_B])}, {"op": "restart"},
                                     {"op": "resync", "ip": "@a0"}, {"op": "resync", "ip": "@a1"}, {"op": "sync_pod", "ns": "ns1", "name": name}]
                             hs.append(("incarnation:%s:p%d:%s:%s:%s" % (kind, policy, rmode, "cloud" if provider else "nocloud", end),
@@ -144,7 +157,46 @@ def fixed_scenarios():
     hs.append(("F2-stale-lister-bind", {"provider": False, "nodes": NODES, "conf": conf_text([POOL_A]), "ops": base + [
         put(A2), inf(A2), flt(A2, ["node1"]), bnd(A2), dele(A2), put(B2), flt(B2, ["node1"]), bnd(B2), inf(B2), bnd(B2),
         {"op": "event", "n": 0}, bnd(B2), inf(B2), phase(B2, 1), {"op": "resync", "ip": "@a0"}]}))
+    # the same with a resync pass before the informer has caught up (a Bind that went through on the API pod alone would
+    # now lose its IP: the lister still shows the old incarnation)
+    A3, B3 = mkpod("web-0", "uA"), mkpod("web-0", "uB")
+    hs.append(("F2-stale-lister-bind-resync", {"provider": False, "nodes": NODES, "conf": conf_text([POOL_A]), "ops": base + [
+        put(A3), inf(A3), flt(A3, ["node1"]), bnd(A3), inf(A3), phase(A3, 2), inf(A3), dele(A3), put(B3), flt(B3, ["node1"]), bnd(B3),
+        {"op": "resync", "ip": "@a0"}, {"op": "event", "n": 0}, {"op": "resync", "ip": "@a0"}, bnd(B3), {"op": "resync", "ip": "@a0"},
+        inf(B3), bnd(B3), phase(B3, 1), inf(B3), {"op": "resync", "ip": "@a0"}]}))
+    # a provider call fails while a pod with several IPs is unbound, every policy: nothing may be released or reserved
+    for policy in (0, 1, 2):
+        for k in (0, 1):
+            U = mkpod("web-0", "uU", policy=policy, ranges=[["10.100.0.3"], ["10.100.0.6~10.100.0.7"]])
+            hs.append(("unassign-fails-p%d-%d" % (policy, k), {"provider": True, "nodes": NODES, "conf": conf_text([POOL_A]), "ops": base + [
+                put(U), inf(U), flt(U, ["node1"]), bnd(U, "node1"), inf(U), phase(U, 1), inf(U), dele(U), inf(U),
+                dict({"op": "event", "n": 0}, fcloud=k), dict({"op": "resync", "ip": "@a%d" % k}, fcloud=k),
+                {"op": "event", "n": 0}, {"op": "resync", "ip": "@a0"}, {"op": "resync", "ip": "@a1"}]}))
     return hs
+
+
+def live_kept(h, o, nwf, label):
+    """an event / resync step never releases or re-keys the IP of a pod that is alive at the API server under the stored
+    UID (resync.go podRunning double-checks with the API server; event handlers compare the UID)"""
+    out = []
+    byuid = {s["Uid"]: s for s in plugingen.all_specs(h)}
+    steps = (o.get("steps") or [])[:nwf]
+    prev = None
+    for si, (op, st) in enumerate(zip(h["ops"], steps)):
+        d = st.get("dump")
+        if d is None:
+            break
+        if prev is not None and op["op"] in ("event", "resync", "resync_item"):
+            alive = {(p[0], p[1], p[2]) for p in prev["pods"] if p[3] not in (2, 3)}
+            after = {e[0]: e for e in d["alloc"]}
+            for e in prev["alloc"]:
+                sp = byuid.get(e[4]) if e[4] else None
+                if sp is None or pod_key(sp) != e[1] or (sp["Ns"], sp["Name"], sp["Uid"]) not in alive:
+                    continue
+                if e[0] not in after or after[e[0]][1] != e[1]:
+                    out.append(("false", si, label, []))
+        prev = d
+    return out
 
 
 def keys_term(hist):
@@ -303,7 +355,7 @@ def mon_c01(h, o, nwf, keys):
     for si, st in enumerate((o.get("steps") or [])[:nwf]):
         if "dump" in st:
             out.append(("(mon_one_owner %s)" % cwdump(st["dump"]), si, "one_owner/live_pods_disjoint", []))
-    return out
+    return out + live_kept(h, o, nwf, "live_pod_keeps_ip_across_resync")
 
 
 def mon_c04(h, o, nwf, keys):
@@ -311,7 +363,7 @@ def mon_c04(h, o, nwf, keys):
     for si, st in enumerate((o.get("steps") or [])[:nwf]):
         if "dump" in st:
             out.append(("(mon_owned %s %s)" % (keys, cwdump(st["dump"])), si, "live_bound_owned", []))
-    return out
+    return out + live_kept(h, o, nwf, "live_pod_keeps_ip_across_resync")
 
 
 def cloud_log(steps, upto):
@@ -362,6 +414,8 @@ def mon_c10(h, o, nwf, keys):
         if prev is not None:
             out.append(("(mon_freed_unassigned %s %s)" % (cwdump(prev), cwdump(d)), si, "freed_unassigned", list(tags)))
         out.append(("(log_ok [] %s)" % cloud_log(steps, si), si, "assign_wellordered", list(tags)))
+        al = {e[0]: e for e in d["alloc"]}
+        out.append((lit(all(c[0] in al and al[c[0]][3] == c[1] and c[1] != "" for c in d["cloud"])), si, "cloud_alloc", list(tags)))
         prev = d
     return out
 
@@ -556,7 +610,7 @@ def mon_c02(h, o, nwf, keys):
                     ok = sorted(e[0] for e in d["alloc"]) == sorted(e[0] for e in prev["alloc"])
                     out.append((lit(ok), si, "dp_takes_reserve", []))
         prev = d
-    return out
+    return out + live_kept(h, o, nwf, "sticky_across_resync")
 
 
 def sticky_scenarios(rng, ctx, n):
@@ -602,7 +656,11 @@ def sticky_scenarios(rng, ctx, n):
                     ops.append({"op": "drop_event", "n": 0})
                     ops.append({"op": "resync", "ip": "@a%d" % rng.randrange(3)})
             p = newpod(j)
-            ops += [put(p), inf(p), flt(p), bnd(p, "@approved:%d" % rng.randrange(3))]
+            if rng.random() < 0.3:
+                # the scheduler filters the new pod before the plugin's informer has seen it; a resync pass runs in between
+                ops += [put(p), flt(p)] + [{"op": "resync", "ip": "@a%d" % a} for a in range(3)] + [inf(p), bnd(p, "@approved:%d" % rng.randrange(3))]
+            else:
+                ops += [put(p), inf(p), flt(p), bnd(p, "@approved:%d" % rng.randrange(3))]
             if old is not None and not surge and late:
                 ops += [{"op": "event", "n": 0}, {"op": "event", "n": 0}, flt(p), bnd(p, "@approved:%d" % rng.randrange(3))]
             ops += [inf(p), phase(p, 1), inf(p)]
@@ -761,7 +819,7 @@ def mon_c03(h, o, nwf, keys):
                 ns, app = e[1].split("_")[1:3]
                 if dps.get((ns, app)) is None and e[2] == 1:
                     out.append(("false", len(steps) - 1, "dp_reserve_released_with_its_deployment", [K1_TAG]))
-    return out
+    return out + live_kept(h, o, nwf, "release_only_when_licensed(pod_alive)")
 
 
 # ------------------------------------------------------------------ C06
